@@ -402,6 +402,37 @@ fn check_entry_points(m1: &Beatmap, k: usize) -> Result<(), String> {
     if buf != text.as_bytes() {
         return Err("encode() and encode_to_string() write different text".into());
     }
+    // encoding takes `&mut self` (it computes and caches curves): a second encoding of the same instance writes
+    // the same text, and the instance still equals the map it was
+    let mut inst = m1.clone();
+    let t1 = inst.encode_to_string().map_err(|e| format!("encode_to_string error {e}"))?;
+    let t2 = inst.encode_to_string().map_err(|e| format!("second encode_to_string error {e}"))?;
+    if t1 != text || t2 != text {
+        return Err("encoding the same instance twice writes different text".into());
+    }
+    if &inst != m1 {
+        return Err("encoding changed the map instance".into());
+    }
+    // a writer that accepts only a few bytes per call (a pipe, a socket) must end up with the same text
+    struct Dribble(Vec<u8>, usize, usize);
+    impl std::io::Write for Dribble {
+        fn write(&mut self, b: &[u8]) -> std::io::Result<usize> {
+            self.2 += 1;
+            let n = b.len().min(1 + (self.2 * 7) % self.1);
+            self.0.extend_from_slice(&b[..n]);
+            Ok(n)
+        }
+        fn flush(&mut self) -> std::io::Result<()> {
+            Ok(())
+        }
+    }
+    for max in [1usize, 5, 14] {
+        let mut w = Dribble(Vec::new(), max, 0);
+        m1.clone().encode(&mut w).map_err(|e| format!("encode into a short-writing writer: error {e}"))?;
+        if w.0 != text.as_bytes() {
+            return Err(format!("encode() into a writer that accepts at most {max} bytes per call leaves {} bytes, the text has {}", w.0.len(), text.len()));
+        }
+    }
     let dir = crate::engine::verif_dir().join("harness/target/tmp").join(format!("c04-{}", std::process::id()));
     std::fs::create_dir_all(&dir).map_err(|e| format!("tmp dir: {e}"))?;
     let p = dir.join(format!("{:?}-{k}.osu", std::thread::current().id()).replace(['(', ')'], ""));
